@@ -47,8 +47,8 @@ def configs(ctx: Ctx) -> list[dict[str, Any]]:
         for cap, progs, adv in [
             (2, progs2[0], None), (2, progs2[0], TTL - 1), (2, progs2[0], TTL + 1), (2, progs2[1], None),
             (2, progs2[1], TTL - 1), (3, progs2[2], None), (3, progs2[2], TTL - 1), (3, progs2[2], TTL),
-            (1, progs2[4], None), (1, progs2[2], None), (2, progs2[3], None), (1, progs2[0], TTL + 1),
-            (2, progs2[2], TTL + 1), (3, progs2[1], TTL), (1, progs2[1], None), (2, progs2[4], TTL - 1),
+            (1, progs2[4], None), (1, progs2[2], None), (1, progs2[0], TTL + 1),
+            (2, progs2[2], TTL + 1), (1, progs2[1], None), (2, progs2[4], TTL - 1),
         ]:
             out.append({"cap": cap, "progs": [list(p) for p in progs], "adv": adv, "bound": 2})
         return out
